@@ -25,10 +25,12 @@ from .symexec import _strip, bool_atoms, bool_eval, subst
 
 
 class Path:
-    __slots__ = ("conds", "ret", "kind", "node")
+    __slots__ = ("conds", "ret", "kind", "node", "effects", "env", "state")
 
-    def __init__(self, conds, ret, kind, node):
-        self.conds, self.ret, self.kind, self.node = conds, ret, kind, node
+    def __init__(self, conds, ret, kind, node, effects=(), env=None):
+        self.conds, self.ret, self.kind, self.node, self.effects = conds, ret, kind, node, list(effects)
+        self.state = env
+        self.env = {k: v for k, v in (env or {}).items() if k not in ("__heap__", "__fx__")}
 
     def __repr__(self):
         return f"<{[(U(c), o) for c, o in self.conds]} -> {self.kind} {U(self.ret) if self.ret is not None else None}>"
@@ -52,12 +54,151 @@ def _as_expr(paths):
     return e
 
 
+class _Canon(ast.NodeTransformer):
+    """Spelling-level canonical forms used while summarising:
+
+    * ``X.setdefault(k, {})`` -> ``X[k]`` (the entry exists afterwards either way; what is stored under it is tracked);
+    * comprehension variables are renamed ``_v0``, ``_v1``... in order of binding;
+    * ``{..}.get(k)`` on a dict comprehension -> ``{..}[k]`` and ``{..}.get(k) is None`` -> ``k not in {..}``
+      (the values of the comprehension are objects, never None).
+    """
+
+    def __init__(self):
+        self.depth = 0
+
+    def visit_Call(self, node):
+        self.generic_visit(node)
+        f = node.func
+        if isinstance(f, ast.Attribute) and f.attr == "setdefault" and len(node.args) == 2 and isinstance(node.args[1], (ast.Dict, ast.List)) \
+                and not getattr(node.args[1], "keys", None) and not getattr(node.args[1], "elts", None):
+            return ast.Subscript(value=f.value, slice=node.args[0], ctx=ast.Load())
+        if isinstance(f, ast.Attribute) and f.attr == "get" and len(node.args) == 1 and isinstance(f.value, ast.DictComp) and not node.keywords:
+            return ast.Subscript(value=f.value, slice=node.args[0], ctx=ast.Load())
+        return node
+
+    def visit_Compare(self, node):
+        # look at the un-rewritten operand first: ``M.get(k) is None``
+        if len(node.ops) == 1 and isinstance(node.ops[0], (ast.Is, ast.IsNot)) and isinstance(node.comparators[0], ast.Constant) and node.comparators[0].value is None \
+                and isinstance(node.left, ast.Call) and isinstance(node.left.func, ast.Attribute) and node.left.func.attr == "get" and len(node.left.args) == 1 \
+                and isinstance(node.left.func.value, ast.DictComp):
+            m = self.visit(node.left.func.value)
+            k = self.visit(node.left.args[0])
+            return ast.Compare(left=k, ops=[ast.NotIn() if isinstance(node.ops[0], ast.Is) else ast.In()], comparators=[m])
+        self.generic_visit(node)
+        # after the rewrite: ``M[k] is None`` with M a dict comprehension
+        if len(node.ops) == 1 and isinstance(node.ops[0], (ast.Is, ast.IsNot)) and isinstance(node.comparators[0], ast.Constant) and node.comparators[0].value is None \
+                and isinstance(node.left, ast.Subscript) and isinstance(node.left.value, ast.DictComp):
+            return ast.Compare(left=node.left.slice, ops=[ast.NotIn() if isinstance(node.ops[0], ast.Is) else ast.In()], comparators=[node.left.value])
+        return node
+
+    def _comp(self, node):
+        ren = {}
+        for g in node.generators:
+            for n in ast.walk(g.target):
+                if isinstance(n, ast.Name):
+                    ren[n.id] = f"_v{self.depth}"
+                    self.depth += 1
+        if ren:
+            for n in ast.walk(node):
+                if isinstance(n, ast.Name) and n.id in ren:
+                    n.id = ren[n.id]
+        self.generic_visit(node)
+        self.depth -= len(ren)
+        return node
+
+    visit_ListComp = visit_SetComp = visit_GeneratorExp = visit_DictComp = _comp
+
+
+_NEVER_NONE_CALLS = {"round", "int", "float", "str", "len", "floor", "ceil", "abs", "max", "min", "bool", "sum", "list", "dict", "tuple", "set"}
+
+
+class _NoneTests(ast.NodeTransformer):
+    """``None is None`` -> True; ``round(x) is None`` (a value that cannot be None) -> False."""
+
+    def visit_Compare(self, node):
+        self.generic_visit(node)
+        if len(node.ops) == 1 and isinstance(node.ops[0], (ast.Is, ast.IsNot)) and isinstance(node.comparators[0], ast.Constant) and node.comparators[0].value is None:
+            x = node.left
+            isnone = None
+            if isinstance(x, ast.Constant):
+                isnone = x.value is None
+            elif isinstance(x, ast.Call) and isinstance(x.func, ast.Name) and x.func.id in _NEVER_NONE_CALLS:
+                isnone = False
+            elif isinstance(x, (ast.BinOp, ast.JoinedStr, ast.List, ast.Dict, ast.Tuple, ast.Set, ast.ListComp, ast.DictComp)):
+                isnone = False
+            if isnone is not None:
+                return ast.Constant(isnone if isinstance(node.ops[0], ast.Is) else not isnone)
+        return node
+
+
+class _HeapRead(ast.NodeTransformer):
+    def __init__(self, heap):
+        self.heap = heap
+
+    def visit(self, node):
+        if isinstance(node, (ast.Subscript, ast.Attribute)) and isinstance(getattr(node, "ctx", None), ast.Load):
+            t = U(node)
+            if t in self.heap:
+                return copy.deepcopy(self.heap[t])
+        return super().visit(node)
+
+
 class Summarizer:
-    def __init__(self, inline=None, loop_hook=None, depth=3):
+    def __init__(self, inline=None, loop_hook=None, depth=3, consts=None):
         self.inline = inline or {}
         self.loop_hook = loop_hook
         self.depth = depth
+        self.consts = consts or {}  # module-level names bound once to a literal: name -> AST
         self._memo = {}
+
+    def _literal_iter(self, it, env):
+        """The elements of a loop's iterable when it is a literal tuple/list (directly, through a local, or through a
+        module-level constant), else None."""
+        e = it
+        for _ in range(3):
+            if isinstance(e, ast.Name) and e.id in env and e.id not in ("__heap__", "__fx__"):
+                e = env[e.id]
+            elif isinstance(e, ast.Name) and e.id in self.consts:
+                e = self.consts[e.id]
+            else:
+                break
+        if isinstance(e, (ast.Tuple, ast.List)) and len(e.elts) <= 16 and not any(isinstance(x, ast.Starred) for x in e.elts):
+            return list(e.elts)
+        return None
+
+    def _unroll(self, st, env, conds, done, depth, func):
+        elts = self._literal_iter(st.iter, env)
+        if elts is None:
+            return None
+        states = [(env, conds)]
+        after = []
+        for el in elts:
+            nxt = []
+            for e, c in states:
+                e = self._fork(e)
+                el_s = self._sub(el, e, depth)
+                if isinstance(st.target, ast.Name):
+                    e[st.target.id] = el_s
+                elif isinstance(st.target, ast.Tuple) and isinstance(el_s, (ast.Tuple, ast.List)) and len(el_s.elts) == len(st.target.elts) \
+                        and all(isinstance(x, ast.Name) for x in st.target.elts):
+                    for x, y in zip(st.target.elts, el_s.elts):
+                        e[x.id] = y
+                else:
+                    return None
+                inner = []
+                live = self._block(st.body, [(e, c)], inner, depth, func)
+                nxt.extend(live)
+                for p in inner:
+                    if p.kind == "break":
+                        after.append((p.state, p.conds))
+                    elif p.kind == "continue":
+                        nxt.append((p.state, p.conds))
+                    else:
+                        done.append(p)
+            states = nxt
+        if st.orelse:
+            states = self._block(st.orelse, states, done, depth, func)
+        return states + after
 
     # ---------------------------------------------------------------- expression level
     def _inline_calls(self, e, depth):
@@ -81,7 +222,19 @@ class Summarizer:
         return T().visit(copy.deepcopy(e))
 
     def _sub(self, e, env, depth):
-        return self._inline_calls(subst(e, env), depth)
+        r = self._inline_calls(subst(e, {k: v for k, v in env.items() if k not in ("__heap__", "__fx__")}), depth)
+        r = _Canon().visit(r)
+        heap = env.get("__heap__")
+        if heap:
+            r = _HeapRead(heap).visit(r)
+        return r
+
+    @staticmethod
+    def _fork(env):
+        e = dict(env)
+        e["__heap__"] = dict(env.get("__heap__", {}))
+        e["__fx__"] = list(env.get("__fx__", []))
+        return e
 
     # ---------------------------------------------------------------- statement level
     def summarize(self, func, depth=None):
@@ -91,10 +244,22 @@ class Summarizer:
             return self._memo[key]
         body = [s for s in func.body if not (isinstance(s, ast.Expr) and isinstance(s.value, ast.Constant))]
         done = []
-        live = self._block(body, [({}, [])], done, depth, func)
+        live = self._block(body, [({"__heap__": {}, "__fx__": []}, [])], done, depth, func)
         for env, conds in live:
-            done.append(Path(conds, ast.Constant(None), "return", func))
+            done.append(Path(conds, ast.Constant(None), "return", func, env.get("__fx__", ())))
         self._memo[key] = done
+        return done
+
+    def block_paths(self, stmts, env0=None, name="block"):
+        """Paths through a statement list (a loop body): each carries the final values of the locals it assigns
+        (``.env``, over the values on entry) and how it ends: "fall", "break", "continue", "return" or "raise"."""
+        holder = ast.FunctionDef(name=name, args=ast.arguments(posonlyargs=[], args=[], kwonlyargs=[], kw_defaults=[], defaults=[]), body=list(stmts), decorator_list=[], lineno=getattr(stmts[0], "lineno", 0))
+        env = {"__heap__": {}, "__fx__": []}
+        env.update(env0 or {})
+        done = []
+        live = self._block(list(stmts), [(env, [])], done, self.depth, holder)
+        for e, conds in live:
+            done.append(Path(conds, None, "fall", stmts[-1], e.get("__fx__", ()), e))
         return done
 
     def _block(self, stmts, states, done, depth, func):
@@ -111,20 +276,23 @@ class Summarizer:
 
     def _stmt(self, st, env, conds, done, depth, func):
         if isinstance(st, ast.If):
-            t = self._sub(st.test, env, depth)
+            t = _NoneTests().visit(self._sub(st.test, env, depth))
             c = try_const(t, default=Ellipsis)
             out = []
             for outcome, blk in ((True, st.body), (False, st.orelse)):
                 if c is not Ellipsis and isinstance(c, bool) and c != outcome:
                     continue
-                out.extend(self._block(blk, [(dict(env), conds + [(t, outcome)])], done, depth, func))
+                out.extend(self._block(blk, [(self._fork(env), conds + [(t, outcome)])], done, depth, func))
             return out
         if isinstance(st, ast.Return):
             v = self._sub(st.value, env, depth) if st.value is not None else ast.Constant(None)
-            done.append(Path(conds, v, "return", st))
+            done.append(Path(conds, v, "return", st, env.get("__fx__", ()), env))
+            return []
+        if isinstance(st, (ast.Break, ast.Continue)):
+            done.append(Path(conds, None, "break" if isinstance(st, ast.Break) else "continue", st, env.get("__fx__", ()), env))
             return []
         if isinstance(st, ast.Raise):
-            done.append(Path(conds, self._sub(st.exc, env, depth) if st.exc is not None else None, "raise", st))
+            done.append(Path(conds, self._sub(st.exc, env, depth) if st.exc is not None else None, "raise", st, env.get("__fx__", ())))
             return []
         if isinstance(st, ast.Assign) and len(st.targets) == 1:
             tg = st.targets[0]
@@ -148,6 +316,10 @@ class Summarizer:
             cur = env.get(st.target.id, ast.Name(id=st.target.id, ctx=ast.Load()))
             env[st.target.id] = ast.BinOp(left=cur, op=st.op, right=self._sub(st.value, env, depth))
             return [(env, conds)]
+        if isinstance(st, ast.For):
+            un = self._unroll(st, env, conds, done, depth, func)
+            if un is not None:
+                return un
         if isinstance(st, (ast.While, ast.For)):
             upd = self.loop_hook(st, env, lambda e: self._sub(e, env, depth)) if self.loop_hook else None
             if upd is None:
@@ -167,7 +339,21 @@ class Summarizer:
                     env[nm] = ast.Call(func=ast.Name(id=f"__after_{meth}__", ctx=ast.Load()), args=[env[nm]] + [self._sub(a, env, depth) for a in st.value.args], keywords=[])
             return [(env, conds)]
         if isinstance(st, ast.Assign):
-            return [(env, conds)]  # stores into attributes / subscripts do not change what is returned here
+            # stores into attributes / subscripts: recorded as effects, and visible to later reads of the same place
+            v = self._sub(st.value, env, depth)
+            for tg in st.targets:
+                if isinstance(tg, (ast.Subscript, ast.Attribute)):
+                    t = copy.deepcopy(_strip(tg))
+                    t.ctx = ast.Load()
+                    t = self._sub(t, {k: x for k, x in env.items() if k != "__heap__"}, depth)
+                    key = U(t)
+                    heap = env.setdefault("__heap__", {})
+                    # a store through a place invalidates what was known about places below or above it
+                    for k in [k for k in heap if k.startswith(key) or key.startswith(k)]:
+                        del heap[k]
+                    heap[key] = v
+                    env.setdefault("__fx__", []).append((key, v, st))
+            return [(env, conds)]
         raise AnalysisError(f"{func.name}: statement kind {type(st).__name__} at line {st.lineno} outside the summariser's language")
 
 
@@ -175,7 +361,7 @@ class Summarizer:
 _OPS = {ast.Add: operator.add, ast.Sub: operator.sub, ast.Mult: operator.mul, ast.FloorDiv: operator.floordiv, ast.Mod: operator.mod,
         ast.BitAnd: operator.and_, ast.BitOr: operator.or_, ast.LShift: operator.lshift, ast.RShift: operator.rshift, ast.Pow: operator.pow}
 _CMP = {ast.Eq: operator.eq, ast.NotEq: operator.ne, ast.Lt: operator.lt, ast.LtE: operator.le, ast.Gt: operator.gt, ast.GtE: operator.ge,
-        ast.In: lambda a, b: a in b, ast.NotIn: lambda a, b: a not in b}
+        ast.In: lambda a, b: a in b, ast.NotIn: lambda a, b: a not in b, ast.Is: operator.is_, ast.IsNot: operator.is_not}
 _UNKNOWN = object()
 
 
@@ -214,6 +400,35 @@ def cval(node, sc):
             return _CMP[type(node.ops[0])](a, b)
         except Exception:
             return _UNKNOWN
+    if isinstance(node, ast.IfExp):
+        t = cval(node.test, sc)
+        if t is _UNKNOWN:
+            return _UNKNOWN
+        return cval(node.body if t else node.orelse, sc)
+    if isinstance(node, ast.BoolOp):
+        vals = [cval(v, sc) for v in node.values]
+        if isinstance(node.op, ast.And):
+            if any(v is not _UNKNOWN and not v for v in vals):
+                return False
+            return _UNKNOWN if any(v is _UNKNOWN for v in vals) else vals[-1]
+        if any(v is not _UNKNOWN and v for v in vals):
+            return True
+        return _UNKNOWN if any(v is _UNKNOWN for v in vals) else vals[-1]
+    if isinstance(node, ast.Call) and (call_name(node) in ("max", "min", "floor", "ceil", "round") or U(node.func) in ("math.floor", "math.ceil")) and not node.keywords and node.args:
+        import math
+        args = [cval(a, sc) for a in node.args]
+        if any(a is _UNKNOWN for a in args):
+            return _UNKNOWN
+        nm = call_name(node) or U(node.func).split(".")[-1]
+        try:
+            if nm in ("max", "min"):
+                seq = args[0] if len(args) == 1 and isinstance(args[0], tuple) else args
+                return max(seq) if nm == "max" else min(seq)
+            if len(args) == 1:
+                return {"floor": math.floor, "ceil": math.ceil, "round": round}[nm](args[0])
+        except Exception:
+            return _UNKNOWN
+        return _UNKNOWN
     if isinstance(node, ast.Call) and call_name(node) in ("abs", "bool", "int") and len(node.args) == 1 and not node.keywords:
         v = cval(node.args[0], sc)
         if v is _UNKNOWN or isinstance(v, (str, tuple)):
@@ -325,10 +540,39 @@ def canon_text(e):
     return U(e)
 
 
+def tv3(test, asg):
+    """Three-valued truth with short-circuit: a known-false operand decides an ``and`` even if others are unknown."""
+    if isinstance(test, ast.BoolOp):
+        vals = [tv3(v, asg) for v in test.values]
+        if isinstance(test.op, ast.And):
+            return False if any(v is False for v in vals) else (True if all(v is True for v in vals) else None)
+        return True if any(v is True for v in vals) else (False if all(v is False for v in vals) else None)
+    if isinstance(test, ast.UnaryOp) and isinstance(test.op, ast.Not):
+        v = tv3(test.operand, asg)
+        return None if v is None else (not v)
+    return bool_eval(test, asg)
+
+
+def _candidates(paths, asg):
+    """Paths that the known atoms do not exclude (conditions are examined in order: a path is dropped at its first
+    condition that is decided the other way)."""
+    out = []
+    for p in paths:
+        ok = True
+        for c, o in p.conds:
+            v = tv3(c, asg)
+            if v is not None and v != o:
+                ok = False
+                break
+        if ok:
+            out.append(p)
+    return out
+
+
 def free_atoms(paths, sc):
     asg = Asg(sc)
     out = set()
-    for p in paths:
+    for p in _candidates(paths, asg):
         for c, _o in p.conds:
             out |= {a for a in bool_atoms(c) if asg._val(a) is None}
         if p.ret is not None:
@@ -338,22 +582,28 @@ def free_atoms(paths, sc):
     return sorted(out)
 
 
-def decide(paths, sc, rewrite=None, limit=4):
-    """[(free assignment, kind, canonical text of the result)] of the table in one scenario."""
+def decide(paths, sc, rewrite=None, limit=5):
+    """[(free assignment, kind, canonical text of the result, path)] of the table in one scenario."""
     free = free_atoms(paths, sc)
-    # atoms that cannot matter in this scenario (their paths are excluded by known atoms) are still enumerated; cheap
     if len(free) > limit:
         raise AnalysisError(f"the result depends on too many other facts in scenario {sc}: {free}")
     out = []
+    seen = set()
     for vals in itertools.product([False, True], repeat=len(free)):
         fx = dict(zip(free, vals))
         asg = Asg(sc, fx)
         hit = []
         for p in paths:
-            tv = [bool_eval(c, asg) for c, _o in p.conds]
-            if any(v is None for v in tv):
-                raise AnalysisError(f"condition not decidable in scenario {sc}: {[U(c) for c, _ in p.conds]}")
-            if all(v == o for v, (_c, o) in zip(tv, p.conds)):
+            tv = [tv3(c, asg) for c, _o in p.conds]
+            # conditions after the first failing one need not be decidable
+            sel = True
+            for v, (_c, o) in zip(tv, p.conds):
+                if v is None:
+                    raise AnalysisError(f"condition not decidable in scenario {sc}: {[U(c) for c, _ in p.conds]}")
+                if v != o:
+                    sel = False
+                    break
+            if sel:
                 hit.append(p)
         if len(hit) != 1:
             raise AnalysisError(f"{len(hit)} paths selected in scenario {sc} / {fx}")
@@ -361,8 +611,52 @@ def decide(paths, sc, rewrite=None, limit=4):
         r = _Simp(asg).visit(copy.deepcopy(_strip(p.ret))) if p.ret is not None else None
         if rewrite is not None and r is not None:
             r = rewrite(r)
-        out.append((fx, p.kind, canon_text(r) if r is not None else None, p))
+        # report each distinct outcome once, with only the free atoms its path actually looks at
+        used = set()
+        for c, _o in p.conds:
+            used |= bool_atoms(c)
+        if p.ret is not None:
+            for n in ast.walk(p.ret):
+                if isinstance(n, ast.IfExp):
+                    used |= bool_atoms(n.test)
+        fx_used = {k: v for k, v in fx.items() if k in used}
+        key = (id(p), tuple(sorted(fx_used.items())))
+        if key in seen:
+            continue
+        seen.add(key)
+        out.append((fx_used, p.kind, canon_text(r) if r is not None else None, p))
     return out
+
+
+def env_before(stmts, stop, sc, fname="function"):
+    """The locals (name -> expression over the parameters) when control reaches the top-level statement ``stop`` in
+    scenario ``sc``: straight-line statements are substituted in order, branches are chosen by the scenario."""
+    asg = Asg(sc)
+    env = {}
+
+    def block(sts):
+        for st in sts:
+            if st is stop:
+                return True
+            if isinstance(st, ast.If):
+                v = tv3(subst(st.test, env), asg)
+                if v is None:
+                    raise AnalysisError(f"{fname}: branch `{U(st.test)[:60]}` before line {stop.lineno} is not decided in scenario {sc}")
+                if block(st.body if v else st.orelse):
+                    return True
+            elif isinstance(st, ast.Assign) and len(st.targets) == 1 and isinstance(st.targets[0], ast.Name):
+                env[st.targets[0].id] = subst(st.value, env)
+            elif isinstance(st, ast.AnnAssign) and isinstance(st.target, ast.Name) and st.value is not None:
+                env[st.target.id] = subst(st.value, env)
+            elif isinstance(st, (ast.For, ast.While, ast.With, ast.Try)):
+                for n in ast.walk(st):
+                    if isinstance(n, ast.Name) and isinstance(n.ctx, ast.Store):
+                        env.pop(n.id, None)
+        return False
+
+    if not block(stmts):
+        raise AnalysisError(f"{fname}: statement at line {stop.lineno} is not a top-level statement")
+    return env
 
 
 def expect(src):
